@@ -106,6 +106,26 @@ def main():
         val = t.value(p) + np.sum(t.w * (p - v) ** 2) / (2 * sg)
         assert val <= best + 1e-12, (t, p, arg, val, best)
         assert np.abs(p - arg).max() <= 0.125, (t, p, arg)
+    # ---- Moreau envelope / infimal convolution with c||.||^2: l1 box (1/2)|.|^2 is the Huber
+    # function (z^2/2 for |z| <= 1, |z| - 1/2 beyond), gradient clip(z, -1, 1)
+    env = R.Envelope(R.L1(w1, 1.0), 0.5)
+    close(env.value([0.5, -3.0, 0.0]), 0.125 + 2.5 + 0.0)
+    close(env.grad([0.5, -3.0, 0.0]), [0.5, -1.0, 0.0])
+    envw = R.Envelope(R.L1(w, 2.0), 1.0)          # weights cancel in the Riesz gradient
+    close(envw.grad([0.5, -3.0, 4.0]), [1.0, -2.0, 2.0])      # 2c z = 1 <= lam; clipped at lam = 2
+    close(envw.value([0.5, 0, 0]), 0.25)                      # c z^2 w = 1 * .25 * 1
+    for t, v, sg in [(R.Envelope(R.L1(np.array([2.0, 0.5]), 1.0), 0.5), [1.5, -0.25], 0.5),
+                     (R.Envelope(R.Shift(R.L1(np.array([2.0, 0.5])), a=[1.0, 0.0]), 1.0),
+                      [2.0, -2.0], 2.0)]:
+        pp = t.prox(v, sg)
+        arg, best = brute_prox(t, np.array(v), sg)
+        val = t.value(pp) + np.sum(t.w * (pp - v) ** 2) / (2 * sg)
+        assert val <= best + 1e-12 and np.abs(pp - arg).max() <= 0.125, (pp, arg, val, best)
+        # definition of the infimal convolution by brute force over u
+        zz = np.array([0.75, -1.5])
+        inf = min(t.base.value(np.array(u)) + t.c * np.sum(t.w * (zz - np.array(u)) ** 2)
+                  for u in itertools.product(np.arange(-3, 3.01, 0.0625), repeat=2))
+        assert abs(inf - t.value(zz)) <= 1e-12, (inf, t.value(zz))
     # ---- linear algebra in weighted spaces
     A = np.array([[1.0, 2.0, 0.0], [0.0, 1.0, -1.0]])
     wy = np.array([2.0, 0.5])
